@@ -523,7 +523,13 @@ impl Lifecycle {
         // frames after our own close
         match st {
             Some(SendState::Reset) => {
-                self.v(format!("{} sent {} on stream {} after its own RST_STREAM", me, tname, sid));
+                // RFC 9113 5.1 (closed): an endpoint "can choose to limit the period over which it ignores frames and treat
+                // frames that arrive after this time as being in error" - a further RST_STREAM(STREAM_CLOSED) answering a
+                // late peer frame on a stream whose reset it no longer remembers is sanctioned; anything else is not
+                let late_answer = matches!(&f.parsed, Ok(Parsed::RstStream { code: 5, .. }));
+                if !late_answer {
+                    self.v(format!("{} sent {} on stream {} after its own RST_STREAM", me, tname, sid));
+                }
                 if f.raw.ty == ty::RST_STREAM {
                     *self.rst_count.entry(sid).or_insert(0) += 1;
                 }
